@@ -915,6 +915,75 @@ def d12_filtered_star_kinds(chk: Check) -> None:
                      "but never by `*` plus a filter".format(k))
 
 
+def d13_filtered_traversal_recursion(chk: Check) -> None:
+    """`**` followed by a segment offers every container *directly* to that
+    segment (the caller then applies the segment and yields the matching
+    children) and recurses into the children that can be containers
+    themselves.  The members of a set are leaves: the unfiltered half of
+    the handler yields them without recursing.  A filtered half that also
+    recurses into them tests each member a second time, by itself, and a
+    search on `.` reports it twice."""
+    prog = chk.prog
+    chk.rule("C01-D13", "the filtered half of the `**` handler recurses only "
+             "into the kinds of container the unfiltered half recurses into",
+             floor=2)
+    fi = prog.func("Processor._get_nodes_by_traversal")
+    data = fi.params()[1]
+    me = fi.node.name
+
+    def fam(k: str) -> str:
+        from sa.ladders import EXTERNAL_BASES
+        k = k.split(".")[-1]
+        for b in (k,) + tuple(EXTERNAL_BASES.get(k, ())):
+            if b in ("dict", "list", "set", "MutableSet"):
+                return "set" if b == "MutableSet" else b
+        return k
+
+    def arms(stmts, recursing: bool):
+        out = []
+        for st in stmts:
+            for n in ast.walk(st):
+                if isinstance(n, ast.If) and isinstance(n.test, ast.Call) \
+                        and src(n.test.func) == "isinstance" and \
+                        src(n.test.args[0]) == data:
+                    rec = any(isinstance(c, ast.Call) and
+                              src(c.func).endswith("." + me)
+                              for b in n.body for c in ast.walk(b))
+                    spec = n.test.args[1]
+                    elts = spec.elts if isinstance(spec, ast.Tuple) \
+                        else [spec]
+                    if rec == recursing:
+                        out.append((n, {fam(src(e)) for e in elts}))
+        return out
+
+    split = None
+    for st in fi.node.body:
+        if isinstance(st, ast.If) and st.orelse and \
+                arms(st.body, True) and arms(st.orelse, True):
+            split = st
+    if split is None:
+        raise AnalysisError("unfiltered / filtered halves of the `**` "
+                            "handler not found")
+    allowed: Set[str] = set()
+    for _, ks in arms(split.body, True):
+        allowed |= ks
+    if not {"dict", "list"} <= allowed:
+        raise AnalysisError("recursing arms of the unfiltered `**` half: {}"
+                            .format(sorted(allowed)))
+    for n, ks in arms(split.orelse, True):
+        text = "filtered `**`: recursion into {}".format("/".join(sorted(ks)))
+        if ks <= allowed:
+            chk.ok("C01-D13", fi, n, text, "a kind whose children can be "
+                   "containers")
+        else:
+            chk.fail("C01-D13", fi, n, text,
+                     "the members of {} are leaves (the unfiltered half "
+                     "yields them without recursing); the container itself "
+                     "is already offered to the next segment, so each "
+                     "matching member is reported twice".format(
+                         "/".join(sorted(ks - allowed))))
+
+
 def d5b_scalars_have_no_attributes(chk: Check) -> None:
     """`[name=value]` on a scalar: a scalar has no attribute `name`, so the
     plain search does not select it (and the inverted one does).  Only the
@@ -963,6 +1032,9 @@ def d5b_scalars_have_no_attributes(chk: Check) -> None:
 
 def run(chk: Check) -> None:
     d6b_guard_completeness(chk)
+    d13_filtered_traversal_recursion(chk)
+    from rules.shared import merge_identity_rule
+    merge_identity_rule(chk, "C01-D14", ("yamlpath/processor.py",), 3)
     d1_dispatch(chk)
     d1b_views(chk)
     d7_every_child(chk)
